@@ -25,6 +25,11 @@ def run(ctx):
     # a rate limiter with short periods under retries that wait: refusals and admissions across period boundaries
     rlt = [["rpW", "rlP"], ["rlP", "rpW"], ["rpW", "rlP", "rlP"], ["rpW", "fbH", "rlP"], ["rpD", "rlP"], ["rpW", "rlP", "cbA"], ["rpW", "cbA", "rlP"]]
     jobs.append(dict(ctx=ctx, binary=binary, name="rlt", stacks=rlt, maxcalls=4, execs=2 if quick else 3, outs=seq.OUTS3, workers=4))
+    # registrations of several errors / error types in one call, and a rate-based breaker whose trial window ends exactly on its threshold
+    multi = [["rpH2"], ["fbH2", "rpH2"], ["rpH2", "cbA"], ["fbH2", "cbX"], ["rpT", "cbTy"], ["fbT", "rpTR"]]
+    jobs.append(dict(ctx=ctx, binary=binary, name="multi", stacks=multi, outs=seq.OUTS_TY + [seq.out("R0", "E2")], maxcalls=3, execs=2, workers=4))
+    rate = [["cbR2"], ["rpW", "cbR2"], ["fbO", "cbR2"]]
+    jobs.append(dict(ctx=ctx, binary=binary, name="rate", stacks=rate, outs=[seq.out("R1"), seq.out("R0", "E1")], maxcalls=4, execs=3 if quick else 4, workers=4))
     mism = seq.run_jobs(ctx, jobs, par=2)
     seq.report(ctx, mism, lambda m: m["tag"] in TAGS)
     # nesting with the two policies that need time and threads (Timeout firing, Hedge): the state of the stateful policies
